@@ -153,7 +153,16 @@ def run(prog, rep):
                 srcs = [d for d in flow.reaching_values(eg, v.id) if not (isinstance(d, ast.Constant) and d.value is None)] or [v]
 
             def is_fresh(src):
-                return isinstance(src, ast.Call) and call_name(src) in ('copy', 'deepcopy', 'from_dict_of_dicts', 'Graph', 'subgraph_copy')
+                if not (isinstance(src, ast.Call) and call_name(src) in ('copy', 'deepcopy', 'from_dict_of_dicts', 'Graph', 'subgraph_copy')):
+                    return False
+                # networkx: G.copy(as_view=True) is a read-only VIEW of G, not a copy
+                for k in src.keywords:
+                    if k.arg == 'as_view' and not (isinstance(k.value, ast.Constant) and k.value.value in (False, None)):
+                        return False
+                if call_name(src) == 'copy' and isinstance(src.func, ast.Attribute) and src.args and \
+                        not (isinstance(src.args[0], ast.Constant) and src.args[0].value in (False, None)):
+                    return False        # positional as_view
+                return True
             fresh = all(is_fresh(x) for x in srcs)
             src = [x for x in srcs if not is_fresh(x)][0] if not fresh else srcs[0]
             rep.instance('R3', f'{fq}: returns {norm(v)} = {[norm(x, 60) for x in srcs]}')
